@@ -466,6 +466,27 @@ func genC18(g *Gen, tier string, w *bufio.Writer) {
 		fmt.Fprintf(w, "bf.str %s 33\n", hexs(b))
 	}
 
+	// sparse strings: exactly one non-zero body byte at every position of strings of 1..24 bytes
+	// (plus a delimiter byte), and two equal / complementary non-zero bytes (unrolled loops, lanes
+	// of word-at-a-time code, accumulators that cancel)
+	for n := 1; n <= 24; n++ {
+		for p := 0; p < n; p++ {
+			for _, x := range []byte{0x01, 0x80, 0xff} {
+				b := make([]byte, n+1)
+				b[p] = x
+				b[n] = 1
+				fmt.Fprintf(w, "bf.str %s %d\n", hexs(b), 8*n+8)
+				fmt.Fprintf(w, "bf.str %s %d\n", hexs(b[:n]), 8*n)
+				for q := p + 1; q < n; q += 1 + (n / 6) {
+					c := append([]byte(nil), b...)
+					c[q] = x
+					fmt.Fprintf(w, "bf.covers %s %s\n", hexs(make([]byte, n+1)), hexs(c))
+					fmt.Fprintf(w, "bf.covers %s %s\n", hexs(b), hexs(c))
+				}
+			}
+		}
+	}
+
 	// longer strings (up to 70 bytes) around the 8-bit and the limit boundaries
 	for i := 0; i < tierN(tier, 6000, 150000); i++ {
 		b := g.bfString()
